@@ -56,6 +56,8 @@ func TestCheck(t *testing.T) {
 		"seq.huge_ttl_capped.hits_right_after_set", "seq.huge_ttl_capped.hit_1ns_before_capped_expiry", "seq.huge_ttl_capped.miss_exactly_at_capped_expiry",
 		"seq.huge_ttl_capped.hits_after_manual_cleanup", "seq.huge_ttl_capped.hits_after_periodic_cleanup", "seq.large_ttl_uncapped.hits", "conc.huge_ttl.hits",
 		"seq.ttl_beyond_duration.hits_right_after_set", "seq.ttl_beyond_duration.hits_68_years_later", "seq.ttl_beyond_duration.hits_after_manual_cleanup", "seq.ttl_beyond_duration.hits_after_periodic_cleanup",
+		"twoseq.probes_of_the_other_caches_after_cleanup_reset_tick", "twoconc.live_untouched_hits_during_cleanup",
+		"twoconc.cleanups_of_A_with_expired_entries", "twoconc.scans_of_other_caches_with_same_key_names", "twoconc.cases_gomaxprocs_1",
 		"resetrace.fresh_key_sets_overlapping_reset", "resetrace.old_key_probes_after_reset", "resetrace.get.miss_reset",
 	})
 	rec.Observe("whether Cleanup physically removed an expired entry (memory reclamation) is not observable through Get and is not judged")
@@ -91,6 +93,14 @@ func TestCheck(t *testing.T) {
 	for i := 0; i < nrr; i++ {
 		plans = append(plans, pl{mode: "resetrace"})
 	}
+	ntseq := mon.Pick(400, 15000)
+	for i := 0; i < ntseq; i++ {
+		plans = append(plans, pl{mode: "twoseq"})
+	}
+	ntconc := mon.Pick(400, 12000)
+	for i := 0; i < ntconc; i++ {
+		plans = append(plans, pl{mode: "twoconc"})
+	}
 	rec.Planned(len(plans))
 	// debugging aid only (never set by the driver): restrict the run to some modes
 	only := os.Getenv("VERIF_C15_MODES")
@@ -110,6 +120,10 @@ func TestCheck(t *testing.T) {
 			runStop(t, idx, genStop(rng))
 		case "resetrace":
 			runResetRace(t, idx, genResetRace(rng))
+		case "twoseq":
+			runTwoSeq(t, idx, genTwoSeq(rng))
+		case "twoconc":
+			runTwoConc(t, idx, genTwoConc(rng))
 		}
 	}
 }
